@@ -4,6 +4,13 @@
 set -e
 id=$1
 V=$(cd "$(dirname "$0")/.." && pwd)
+# never wipe deliverables that a queued run still needs (queue file: lines "<ID> <name>", log: "<ID> <name> done")
+if [ -f /tmp/seedq-g.txt ]; then
+  while read -r qid qname; do
+    [ "$qid" = "$id" ] || continue
+    grep -q "^$qid $qname done" /tmp/seedq-g.log 2>/dev/null || { echo "refusing: $qid $qname is still queued (its deliverables live in /tmp/seed-$id)"; exit 1; }
+  done < /tmp/seedq-g.txt
+fi
 git -C /repo worktree remove --force /tmp/wt-$id 2>/dev/null || true
 rm -rf /tmp/wt-$id /tmp/seed-$id
 git -C /repo worktree prune
